@@ -137,6 +137,17 @@ def batchRoots (c : HashCtx) : Nat → List Bool → T Trie.Bytes → List (List
         | some s => batchRoots c n (p ++ q) s
         | none => []
 
+/-- **One block, the way the node does it**: a fresh instance at the current root (`updatedNodes` empty), one
+`Update` with the block's batch, then `Commit` writes exactly what `updatedNodes` holds. State: the store and the tree
+of the current root (height `4 * n`). -/
+def blockStep (c : HashCtx) (n : Nat) (st : Store × T Trie.Bytes) (b : List (KV Trie.Bytes)) : Store × T Trie.Bytes :=
+  let r := updU c (batchVal c) (4 * n) [] st.2 b []
+  (commitS st.1 r.2, r.1.1)
+
+/-- the store and the tree after the blocks `bs`, starting from an empty DB and the empty trie -/
+def runBlocks (c : HashCtx) (n : Nat) (bs : List (List (KV Trie.Bytes))) : Store × T Trie.Bytes :=
+  bs.foldl (blockStep c n) (emptyStore, .empty)
+
 /-! ### The same with the hashes kept in the tree
 
 `updU` recomputes the hash of a subtree wherever the Go code merely reads the reference stored in the
